@@ -22,7 +22,9 @@ PROFILES = ["a", "b", "c", "d", "e"]
 SIMPLE_CONDITIONS = [["id", "a"], ["id", "b"], ["id", "c"], ["and", [["id", "a"], ["id", "b"]]],
                      ["or", [["id", "a"], ["id", "c"]]], ["and", [["id", "b"], ["not", ["id", "c"]]]],
                      ["cds", ["and", [["id", "a"], ["id", "b"]]]], ["min", 2, ["a", "b", "c"]],
-                     ["score", "d", 20], ["or", [["id", "d"], ["id", "e"]]]]
+                     ["score", "d", 20], ["or", [["id", "d"], ["id", "e"]]],
+                     # three genes have to cooperate: the gene in the middle has helpers on both sides
+                     ["and", [["id", "a"], ["id", "b"], ["id", "c"]]], ["min", 3, ["a", "b", "c", "d"]]]
 
 
 def gen_world(rng, circular=None, simple_rules: float = 0.6, max_genes: int = 12, allow_extenders: bool = True,
@@ -148,7 +150,16 @@ def build_record(world):
     return record
 
 
-def build_ruleset(world, rules=None, order=None):
+def hmmer_hits_of(world, hmm_names):
+    """ what find_hmmer_hits would return for the profiles played by HMMs """
+    from antismash.common.hmm_rule_parser.structures import HMMerHit
+    return {g: [HMMerHit(g, p, 0, 30, 10, 1e-5, float(score)) for p, score in hs.items() if p in hmm_names]
+            for g, hs in world["hits"].items() if any(p in hmm_names for p in hs)}
+
+
+def build_ruleset(world, rules=None, order=None, hmm_names=()):
+    """ hmm_names: profiles that are HMM signatures instead of dynamic profiles (the caller supplies their hits by
+        standing in for find_hmmer_hits, see hmmer_hits_of) """
     rules = list(rules if rules is not None else parse_rules(world))
     if order is not None:
         by_name = {r.name: r for r in rules}
@@ -161,9 +172,13 @@ def build_ruleset(world, rules=None, order=None):
                     for g, hs in hits.items() if profile in hs}
         return DynamicProfile(profile, "generated", detect)
     mult = world.get("multipliers", [1.0, 1.0])
-    return CP.Ruleset(tuple(rules), {}, "", {"cat"}, "verif-tool",
+    signatures = {}
+    if hmm_names:
+        from antismash.common.signature import HmmSignature
+        signatures = {p: HmmSignature(p, "generated", 0, "generated.hmm") for p in PROFILES if p in hmm_names}
+    return CP.Ruleset(tuple(rules), signatures, "", {"cat"}, "verif-tool",
                       multipliers=Multipliers(cutoff=mult[0], neighbourhood=mult[1]),
-                      dynamic_profiles={p: make(p) for p in PROFILES}, equivalence_groups=[])
+                      dynamic_profiles={p: make(p) for p in PROFILES if p not in hmm_names}, equivalence_groups=[])
 
 
 def quiet():
